@@ -65,7 +65,7 @@ class Facts:
                 continue
             if name and b["name"] != name:
                 continue
-            if def_re and not re.search(def_re, b["def"]):
+            if def_re and not (re.search(def_re, b["def"]) or re.search(def_re, b["id"])):
                 continue
             im = b.get("impl")
             if trait is not None:
